@@ -172,6 +172,16 @@ theorem C15_weights {ρ} (reqs : List Char → Option ρ) (scs : List ScenarioCf
     unfold deliver
     by_cases h0 : ring.length = 0 <;> simp [h0]
 
+/-- a negative weight is refused with an error before anything else (the hypothesis `0 ≤ weight` of `C15_weights`
+is exactly the accepted range; `SpreadNames` never sees a negative weight, so its division and `make` cannot panic) -/
+theorem C15_negative_weight_refused {ρ} (reqs : List Char → Option ρ) (scs : List ScenarioCfg)
+    (h : ∃ sc ∈ scs, sc.weight < 0) : decodeAmmo reqs scs = .err "negweight" := by
+  obtain ⟨sc, hsc, hlt⟩ := h
+  have : (scs.any fun sc => decide (sc.weight < 0)) = true := List.any_eq_true.mpr ⟨sc, hsc, by simpa using hlt⟩
+  unfold decodeAmmo
+  rw [this]
+  rfl
+
 /-- the effective weights used above are the ones of the executable Spec (`ringOK`) -/
 theorem C15_weights_spec (scs : List ScenarioCfg) :
     effWeights (scs.map (·.weight)) = scs.map (effW scs.length) := effWeights_eq scs
@@ -324,6 +334,8 @@ def exScs : List ScenarioCfg :=
 example : (exScs.map (·.name)).Nodup ∧ (∀ sc ∈ exScs, 0 ≤ sc.weight) := by decide
 example : (decodeAmmo exReqs exScs).bind (fun ring => .ok (ring.map (String.ofList ·.name))) =
     .ok ["s1", "s1", "s1", "s1", "s1", "s1", "s2", "s2", "s2", "s2", "s3"] := by decide
+example : decodeAmmo exReqs ({ name := "neg".toList, weight := -1, minWaitingTime := 0, requests := [] } :: exScs) =
+    .err "negweight" := by decide
 example : (decodeAmmo exReqs (exScs.take 2)).bind (fun ring => .ok (ring.map (String.ofList ·.name))) =
     .ok ["s1", "s1", "s1", "s2", "s2"] := by decide
 
